@@ -256,6 +256,14 @@ func RunDyn(s Dyn) mon.Result {
 	if d.DefaultDesiredPriv != effDefault {
 		return viol("c17/user-option-lost:"+label+":default-desired-priv", "driver DefaultDesiredPriv is %q, the user asked for %q (definition: %q)", d.DefaultDesiredPriv, effDefault, eff.Default)
 	}
+	return drive(s, label, eff, effDefault, prompts, d, conn, dev, st)
+}
+
+// drive runs one session (Open with its on-open steps, the descriptor's level pairs, Close with its
+// on-close steps) of driver d against the device model dev derived from d's own levels; eff and
+// prompts are the reference reading of the definition the driver was built from.
+func drive(s Dyn, label string, eff *refPlatform, effDefault string, prompts map[string]string, d *network.Driver,
+	conn *devsim.Conn, dev *devsim.CLI, st *devStats) mon.Result {
 	if hz := promptHazards(eff, prompts); len(hz) > 0 {
 		return mon.Result{Verdict: mon.Inconclusive, Detail: "generator precondition not met: " + strings.Join(hz, "; ")}
 	}
